@@ -32,18 +32,18 @@ UNITS = [
     Verus('c11_skip_targets', build, min_verified=6,
           contract='skip_target_boundaries(n): never Err (no Bug reachable, no overflow); strictly ascending; every target in [1, n); empty iff n < 2; '
                    'first = n/2; each next target halves the remaining gap; the last gap is <= MIN_SKIP_GAP; terminates. All n in u64.'),
-    Verus('c11_is_ancestor', build_ia, min_verified=37,
-          contract='Storage::is_ancestor, search_queued, Storage::get_location, Storage::get_location_from, LocatedAddress::location (default methods, extracted verbatim): for every well-formed stored graph of any size, '
+    Verus('c11_is_ancestor', build_ia, min_verified=41,
+          contract='Storage::is_ancestor, search_queued, Storage::get_location, Storage::get_location_from, Segment::get_by_address, LocatedAddress::location (default methods, extracted verbatim): for every well-formed stored graph of any size, '
                    'is_ancestor terminates and returns true exactly when search is a proper ancestor of start; search_queued returns Some(l) exactly when the storage holds the addressed command and it is an ancestor-or-self of a seed, '
                    'and l is that command\'s location; get_location finds the command exactly when it is in the committed graph (reachable from a committed head); get_location_from exactly when it is start or an ancestor of start; '
                    'skip-list jumps never change the answer; no error / Bug exit; the debug_asserts are proved'),
 ]
 TRUSTED = ['MaxCut is a u64 newtype (shim)',
-           'graph well-formedness axioms (assumed contract of Storage / Segment / get_heads, 10 admitted proof fns): max cut strictly grows along ancestry, transitivity, in-segment order, '
+           'graph well-formedness axioms (assumed contract of Storage / Segment / get_heads, 10 admitted proof fns + A7 uniqueness of command ids): max cut strictly grows along ancestry, transitivity, in-segment order, '
            'cross-segment ancestry passes through the segment priors, skip entries are spine nodes (A4). A4 is no longer a free assumption: unit c04_lca proves that LinearStorage::build_skip_list '
            'establishes it for every new segment from A4 of the existing segments and from lca_pair returning a cut — an induction over the write order whose glue (LinearStorage::write passes the perspective\'s prior and the braid\'s LCA) is read, not checked',
            'TraversalQueue::{push, pop} contracts as proved in unit c21_traversal_queue, restated over the one-entry-per-segment view (restatement argued, not mechanically linked)']
-ASSUMPTIONS = ['Segment::get_by_address is assumed to find the addressed command exactly when this segment holds it (external_body contract); TraversalQueue::push is assumed not to overflow its capacity',
+ASSUMPTIONS = ['an address (id, max cut) names at most one stored command (axiom A7: command ids are unique); Segment::get_command returns the command stored at the location; TraversalQueue::push is assumed not to overflow its capacity',
                'that the real LinearStorage satisfies the structural graph axioms A1-A3, A5, A6 (max cut grows along ancestry, segments are linear, cross-segment ancestry goes through priors, rooted) is argued in DESIGN.md, not machine-checked']
 EXPLANATION = 'Ancestry search proved correct and terminating over an abstract well-formed graph; skip-list target computation proved for all n; both on extracted text.'
 MANIFEST = {
